@@ -21,6 +21,14 @@ Theorem pass_variables_fully_reset :
 Proof. exact ApiProofs.passvars_reset_l. Qed.
 Print Assumptions pass_variables_fully_reset.
 
+(* translation_direction (which table attribute patterns consult): the REGENERATED list of its assignments is exactly
+   "the forward main pass sets 1, the backward main pass sets 0, each before its first loop" *)
+Theorem direction_is_set_by_every_main_pass :
+  direction_assignments =
+  [("lou_backTranslateString.c", "backTranslateString", 0, true); ("lou_translateString.c", "translateString", 1, true)]%string.
+Proof. exact ApiProofs.direction_l. Qed.
+Print Assumptions direction_is_set_by_every_main_pass.
+
 (* the table cache is keyed by the complete list string: the REGENERATED comparison holds exactly
    for equal names (a prefix, or a name sharing a prefix, is a different key) *)
 Theorem cache_key_is_the_whole_name : forall a b, key_hit a b = true <-> a = b.
